@@ -105,3 +105,19 @@ Theorem C09_sum_refuted_float_ignored :
   v_sum [CNum NFloat [4609434218613702656; 4612811918334230528] []] = 0.
 Proof. exact sum_refuted_float_ignored. Qed.
 Print Assumptions C09_sum_refuted_float_ignored.
+
+(* vam Tail (runtime/vam/op/tail.go): for every limit and every split of a
+   scope's values into vectors, the vectors it hands out hold exactly the last
+   min(limit, n) values of the scope, in order -- also when one large vector
+   makes several buffered vectors unnecessary at once, and in every scope of a
+   sequence served by one instance. *)
+From ZV Require Import Model.VamTail Proofs.VamTailProofs.
+Theorem C09_tail_scope : forall limit batches,
+  List.concat (tail_scope limit batches) = lastn limit (List.concat batches).
+Proof. exact tail_scope_spec. Qed.
+Print Assumptions C09_tail_scope.
+
+Theorem C09_tail_scopes : forall limit scopes,
+  map (@List.concat Z) (tail_scopes limit scopes) = map (fun s => lastn limit (List.concat s)) scopes.
+Proof. exact tail_scopes_spec. Qed.
+Print Assumptions C09_tail_scopes.
